@@ -51,6 +51,7 @@ type stateProfile struct {
 	nPod    int
 	checked int
 	ops     []string
+	pidUsed map[string]bool
 }
 
 func init() { Profiles["state"] = func() Profile { return &stateProfile{} } }
@@ -65,18 +66,24 @@ func (p *stateProfile) build() {
 
 func (p *stateProfile) Run(s *Sim) {
 	p.s, p.ch = s, s.Ch
+	p.pidUsed = map[string]bool{}
 	p.e = NewEnv(s)
 	p.e.Opts = DefaultOptions()
 	s.DrawKnobs()
 	p.e.CP.Catalog = GenCatalog(s.Ch, CatalogSpec{Types: 4, Zones: []string{"zone-a", "zone-b"}, Spot: true})
 	s.Boot(p.e.BaseCtx(), p.build)
 	p.setupStatic()
+	// namespaces, storage objects, pools and the daemonset exist long before the history starts
+	s.SettleMode = true
+	s.Settle(2000)
+	s.SettleMode = false
 	nOps := 15 + p.ch.Pick("state.nops", 60)
 	for i := 0; i < nOps && len(s.Viol) == 0 && s.Fatal == ""; i++ {
 		p.op()
 		k := p.ch.Pick("state.steps", 12)
+		allowTime := p.ch.Pick("state.time", 5) == 0
 		for j := 0; j < k; j++ {
-			if !s.StepOnce() {
+			if !s.StepOpt(allowTime) {
 				break
 			}
 		}
@@ -85,6 +92,7 @@ func (p *stateProfile) Run(s *Sim) {
 		}
 	}
 	p.check("end")
+	s.Sample = p.ops
 }
 
 func (p *stateProfile) setupStatic() {
@@ -144,7 +152,8 @@ func (p *stateProfile) note(format string, a ...interface{}) {
 // op performs one random environment operation on the API.
 func (p *stateProfile) op() {
 	st := p.s.store
-	switch p.ch.Pick("state.op", 16) {
+	switch p.ch.Pick("state.op", 17) - 1 {
+	case -1: // no operation (the minimiser's default)
 	case 0, 1: // create NodeClaim (unlaunched)
 		p.nNC++
 		nc := &v1.NodeClaim{ObjectMeta: metav1.ObjectMeta{Name: fmt.Sprintf("nc-%d", p.nNC), Finalizers: []string{v1.TerminationFinalizer},
@@ -161,8 +170,8 @@ func (p *stateProfile) op() {
 			return
 		}
 		nc := o.(*v1.NodeClaim)
-		if nc.Status.ProviderID != "" && p.ch.Pick("state.relaunch", 6) != 0 {
-			return
+		if nc.Status.ProviderID != "" {
+			return // a NodeClaim is launched once
 		}
 		it := p.e.CP.Catalog[p.ch.Pick("state.it", len(p.e.CP.Catalog))]
 		of := it.Offerings[p.ch.Pick("state.of", len(it.Offerings))]
@@ -190,8 +199,9 @@ func (p *stateProfile) op() {
 			if l := nc.Labels[corev1.LabelInstanceTypeStable]; l != "" && p.ch.Pick("state.itlabel", 4) != 0 {
 				node.Labels[corev1.LabelInstanceTypeStable] = l
 			}
-			if p.ch.Pick("state.pidlater", 3) != 0 {
+			if p.ch.Pick("state.pidlater", 3) != 0 && !p.pidInUse(nc.Status.ProviderID) {
 				node.Spec.ProviderID = nc.Status.ProviderID
+				p.pidUsed[nc.Status.ProviderID] = true
 			}
 			node.Finalizers = []string{v1.TerminationFinalizer}
 			node.Spec.Taints = []corev1.Taint{v1.UnregisteredNoExecuteTaint}
@@ -217,24 +227,20 @@ func (p *stateProfile) op() {
 			case 0:
 				if len(ncs) > 0 {
 					nc := ncs[p.ch.Pick("state.pick", len(ncs))].(*v1.NodeClaim)
-					if nc.Status.ProviderID != "" {
+					// the cloud controller assigns a provider id once, to one node
+					if nc.Status.ProviderID != "" && n.Spec.ProviderID == "" && !p.pidInUse(nc.Status.ProviderID) {
 						n.Spec.ProviderID = nc.Status.ProviderID
+						p.pidUsed[nc.Status.ProviderID] = true
 						n.Labels[v1.NodePoolLabelKey] = nc.Labels[v1.NodePoolLabelKey]
 						n.Labels[corev1.LabelInstanceTypeStable] = nc.Labels[corev1.LabelInstanceTypeStable]
 					}
 				}
-			case 1:
-				if n.Labels[v1.NodeRegisteredLabelKey] == "" {
-					n.Labels[v1.NodeRegisteredLabelKey] = "true"
-					n.Spec.Taints = nil
-				} else {
-					delete(n.Labels, v1.NodeRegisteredLabelKey)
-				}
+			case 1: // Karpenter sets these labels once and never removes them
+				n.Labels[v1.NodeRegisteredLabelKey] = "true"
+				n.Spec.Taints = nil
 			case 2:
-				if n.Labels[v1.NodeInitializedLabelKey] == "" {
+				if n.Labels[v1.NodeRegisteredLabelKey] == "true" {
 					n.Labels[v1.NodeInitializedLabelKey] = "true"
-				} else {
-					delete(n.Labels, v1.NodeInitializedLabelKey)
 				}
 			case 3:
 				it := p.e.CP.Catalog[p.ch.Pick("state.it", len(p.e.CP.Catalog))]
@@ -256,7 +262,7 @@ func (p *stateProfile) op() {
 			return
 		}
 		pod := p.genPod(name)
-		if o := p.pickObj(gvkNode, "state.pick"); o != nil && p.ch.Pick("state.bound", 4) != 0 {
+		if o := p.pickObj(gvkNode, "state.pick"); o != nil && p.ch.Pick("state.bound", 4) != 0 && trackable(o.(*corev1.Node)) {
 			pod.Spec.NodeName = o.GetName()
 		}
 		must(st.Create(pod, nil))
@@ -271,6 +277,9 @@ func (p *stateProfile) op() {
 		var node client.Object
 		if what == 0 && pod.Spec.NodeName == "" {
 			node = p.pickObj(gvkNode, "state.pick")
+			if node != nil && !trackable(node.(*corev1.Node)) {
+				node = nil
+			}
 		}
 		st.Mutate(gvkPod, keyOf(pod), func(o client.Object) {
 			q := o.(*corev1.Pod)
@@ -329,6 +338,18 @@ func (p *stateProfile) op() {
 		}
 		must(st.Create(&storagev1.CSINode{ObjectMeta: metav1.ObjectMeta{Name: o.GetName()},
 			Spec: storagev1.CSINodeSpec{Drivers: []storagev1.CSINodeDriver{{Name: "csi.sc-a", NodeID: "x", Allocatable: &storagev1.VolumeNodeResources{Count: ptr.To(int32(2 + p.ch.Pick("state.lim", 3)))}}}}}, nil))
+		for p.s.cache.Oldest(gvkCSINode) != nil {
+			p.s.Mgr.Deliver(gvkCSINode) // CSINode is not a kind C11 quantifies over: no lag for it
+		}
+		// the kubelet updates the Node (csi nodeid annotation) when a driver registers, so a Node event
+		// always follows; CSINode itself is not one of the kinds C11 quantifies over
+		st.Mutate(gvkNode, keyOf(o), func(o client.Object) {
+			n := o.(*corev1.Node)
+			if n.Annotations == nil {
+				n.Annotations = map[string]string{}
+			}
+			n.Annotations["csi.volume.kubernetes.io/nodeid"] = "{\"csi.sc-a\":\"x\"}"
+		})
 		p.note("create CSINode %s", o.GetName())
 	case 15: // nodeclaim condition / label update (no identity change)
 		o := p.pickObj(gvkNodeClaim, "state.pick")
@@ -351,6 +372,34 @@ func (p *stateProfile) op() {
 		})
 		p.note("mutate NodeClaim %s", o.GetName())
 	}
+}
+
+// trackable: cluster state deliberately ignores a managed Node until it has a provider id and an
+// instance-type label; the kube-scheduler does not bind pods to such a node in practice (it still
+// carries the unregistered taint), and a pod bound there would keep its informer in a retry loop
+// that is an in-flight update, not a settled state.
+func trackable(n *corev1.Node) bool {
+	if n.Labels[v1.NodePoolLabelKey] == "" {
+		return true
+	}
+	return n.Spec.ProviderID != "" && (n.Labels[corev1.LabelInstanceTypeStable] != "" || n.Labels[v1.NodeInitializedLabelKey] != "")
+}
+
+// pidInUse: a provider id belongs to one node name for the whole history (the node name is derived
+// from the instance), so it is never handed to a second Node object, not even after the first is gone.
+func (p *stateProfile) pidInUse(pid string) bool {
+	if pid == "" {
+		return false
+	}
+	if p.pidUsed[pid] {
+		return true
+	}
+	for _, o := range p.s.store.List(gvkNode) {
+		if o.(*corev1.Node).Spec.ProviderID == pid {
+			return true
+		}
+	}
+	return false
 }
 
 func (p *stateProfile) genPod(name string) *corev1.Pod {
@@ -400,7 +449,8 @@ func (p *stateProfile) check(tag string) {
 		ok = s.Settle(3000)
 	}
 	s.SettleMode = false
-	if !ok {
+	if !ok || len(s.PendingRetries()) > 0 {
+		// some reconcile is still failing and backing off: an update is in flight, not a settled state
 		s.Stat("c11.unsettled")
 		return
 	}
@@ -427,8 +477,8 @@ func (p *stateProfile) check(tag string) {
 	}
 	p.checked++
 	s.Stat("c11.compared")
-	if d := diffClusters(p.e.Cluster, ref, []string{"pool-0", "pool-1"}); d != "" {
-		s.Violate("C11", "state-differential", "%s check: incremental cluster state differs from fresh recomputation: %s", tag, d)
+	for _, d := range diffClusters(p.e.Cluster, ref, []string{"pool-0", "pool-1"}) {
+		s.Violate("C11", "state-differential/"+d.class, "%s check: incremental cluster state differs from fresh recomputation: %s", tag, d.text)
 	}
 }
 
@@ -495,7 +545,16 @@ func snapshotCluster(c *state.Cluster, pools []string) map[string]map[string]str
 	return out
 }
 
-func diffClusters(a, b *state.Cluster, pools []string) string {
+type stateDiff struct {
+	class string
+	text  string
+}
+
+var nodeUsageFields = map[string]bool{"podRequests": true, "podLimits": true, "dsRequests": true, "dsLimits": true, "hostPorts": true, "volumes": true, "disruptionCost": true}
+
+// diffClusters returns one entry per differing key, classified by what differs so that a
+// recorded known finding never hides a different discrepancy.
+func diffClusters(a, b *state.Cluster, pools []string) []stateDiff {
 	sa, sb := snapshotCluster(a, pools), snapshotCluster(b, pools)
 	keys := map[string]bool{}
 	for k := range sa {
@@ -509,33 +568,49 @@ func diffClusters(a, b *state.Cluster, pools []string) string {
 		ks = append(ks, k)
 	}
 	sort.Strings(ks)
-	var diffs []string
+	var out []stateDiff
 	for _, k := range ks {
 		ma, oka := sa[k]
 		mb, okb := sb[k]
 		if !oka {
-			diffs = append(diffs, fmt.Sprintf("%s: missing in incremental state", k))
+			out = append(out, stateDiff{"missing-entry", fmt.Sprintf("%s: missing in incremental state", k)})
 			continue
 		}
 		if !okb {
-			diffs = append(diffs, fmt.Sprintf("%s: only in incremental state (%v)", k, ma))
+			out = append(out, stateDiff{"extra-entry", fmt.Sprintf("%s: only in incremental state (%v)", k, ma)})
 			continue
 		}
-		var fs []string
+		var fs, parts []string
 		for f := range ma {
-			fs = append(fs, f)
-		}
-		sort.Strings(fs)
-		for _, f := range fs {
 			if ma[f] != mb[f] {
-				diffs = append(diffs, fmt.Sprintf("%s.%s: incremental=%q fresh=%q", k, f, ma[f], mb[f]))
+				fs = append(fs, f)
 			}
 		}
+		if len(fs) == 0 {
+			continue
+		}
+		sort.Strings(fs)
+		onlyUsage := true
+		for _, f := range fs {
+			parts = append(parts, fmt.Sprintf("%s.%s: incremental=%q fresh=%q", k, f, ma[f], mb[f]))
+			if !nodeUsageFields[f] {
+				onlyUsage = false
+			}
+		}
+		class := "fields:" + strings.Join(fs, ",")
+		switch {
+		case strings.HasPrefix(k, "node/") && onlyUsage && ma["hasNode"] == "false" && mb["hasNode"] == "false":
+			// the Node object is gone, the NodeClaim remains, and usage derived from the Node is still held
+			class = "node-usage-retained-after-node-delete"
+		case len(fs) == 1 && fs[0] == "disruptionCost" && ma["hasNode"] == "true":
+			class = "disruption-cost-only"
+		}
+		if len(parts) > 4 {
+			parts = append(parts[:4], fmt.Sprintf("(+%d more)", len(parts)-4))
+		}
+		out = append(out, stateDiff{class, strings.Join(parts, "; ")})
 	}
-	if len(diffs) > 4 {
-		diffs = append(diffs[:4], fmt.Sprintf("(+%d more)", len(diffs)-4))
-	}
-	return strings.Join(diffs, "; ")
+	return out
 }
 
 var _ = v1alpha1.Group
